@@ -289,6 +289,16 @@ def every_token_matters(c, toks, n, kinds_alphabet):
     except Exception:  # refused by scanner / resolver: nothing is accepted, nothing ignored
         c.reach("witness refused by model_description")
         return
+    # a term that is subtracted at the top level may legitimately leave no trace in the model
+    d0 = 0
+    for kd in kinds:
+        if kd in ("LEFT_PAREN", "LEFT_BRACKET", "LEFT_BRACE"):
+            d0 += 1
+        elif kd in ("RIGHT_PAREN", "RIGHT_BRACKET", "RIGHT_BRACE"):
+            d0 -= 1
+        elif kd == "MINUS" and d0 == 0:
+            c.reach("witness has a top-level subtraction (token influence not demanded)")
+            return
     depth = 0
     inside = []
     for kd in kinds:
